@@ -76,6 +76,20 @@ class Daemon:
                 return None
             self.buf += chunk
 
+    def drain_quiet(self, quiet=0.25, cap=2.0):
+        """reads what the daemon has written without being asked, until `quiet` seconds of
+        silence; returns how many bytes are waiting"""
+        end = time.time() + cap
+        while time.time() < end:
+            r, _, _ = select.select([self.p.stdout], [], [], quiet)
+            if not r:
+                break
+            chunk = os.read(self.p.stdout.fileno(), 65536)
+            if not chunk:
+                break
+            self.buf += chunk
+        return len(self.buf)
+
     def send(self, data):
         try:
             self.p.stdin.write(data)
@@ -99,7 +113,9 @@ class Daemon:
         return "fault exit %s %s" % (rc, err)
 
 
-def run_case(lines):
+def run_case(lines, extra_wait=0.0):
+    recs, late_seen = [], False
+    emit = recs.append
     mods, conf_body, timeout_s = 0, b"", 0
     tr = TagResolver()      # symbolic routing tags, same rules as harness/h_proto.c
     d = None
@@ -108,31 +124,31 @@ def run_case(lines):
     try:
         for line in lines:
             if line.startswith("case "):
-                print(line)
+                emit(line)
                 continue
             f = line.split(" ")
             if dead:
                 continue
             if f[0] == "modules":
                 mods = 2 if f[1] == "class" else 1 if f[1] == "xquery" else 0
-                print("ok")
+                emit("ok")
             elif f[0] == "conf":
                 conf_body = unhx(f[1])
                 for x in f[2:]:
                     if x.startswith("t="):
                         timeout_s = int(x[2:])
-                print("ok")
+                emit("ok")
             elif f[0] == "verbosity":
-                print("ok")
+                emit("ok")
             elif f[0] == "start":
                 d = Daemon(mods, conf_body, wd)
                 out = d.op(b"")
                 if out is None:
-                    print(d.fault()); dead = True
+                    emit(d.fault()); dead = True
                 else:
-                    print("rc 0 out " + hx(out))
+                    emit("rc 0 out " + hx(out))
             elif d is None:
-                print("bad-op")
+                emit("bad-op")
             elif f[0] == "in":
                 data = tr.resolve(unhx(f[1]))
                 tr.fed(data)
@@ -145,17 +161,23 @@ def run_case(lines):
                 else:
                     out = d.op(data)
                 if out is None:
-                    print(d.fault()); dead = True
+                    emit(d.fault()); dead = True
                 else:
                     tr.out(out)
-                    print("out " + hx(out))
+                    emit("out " + hx(out))
             elif f[0] == "elapse":
-                time.sleep(timeout_s + 0.35 if timeout_s else 0.05)
+                time.sleep((timeout_s + 0.35 if timeout_s else 0.05) + extra_wait)
+                # what a timer writes must reach the pipe on its own: whatever only appears
+                # once the next input line (here the marker) has been read was held back
+                n = d.drain_quiet()
                 out = d.op(b"")
                 if out is None:
-                    print(d.fault()); dead = True
+                    emit(d.fault()); dead = True
                 else:
-                    print("out %s fired=*" % hx(out))
+                    late = out[n:] if timeout_s else b""
+                    if late:
+                        late_seen = True
+                    emit("out %s fired=*%s" % (hx(out), (" late=" + hx(late)) if late else ""))
             elif f[0] == "reload":
                 body = unhx(f[1])
                 for x in f[2:]:
@@ -166,9 +188,9 @@ def run_case(lines):
                 time.sleep(0.15)
                 out = d.op(b"")
                 if out is None:
-                    print(d.fault()); dead = True
+                    emit(d.fault()); dead = True
                 else:
-                    print("rc ? out " + hx(out))
+                    emit("rc ? out " + hx(out))
             elif f[0] == "eof":
                 try:
                     d.p.stdin.close()
@@ -181,11 +203,11 @@ def run_case(lines):
                 rest = d.buf + d.p.stdout.read()
                 err = d.p.stderr.read().decode("latin-1", "replace")
                 san = "ERROR: AddressSanitizer" in err or "runtime error" in err
-                print("exit clean=%d timers=0 out %s%s" % (1 if rc == 0 and not san else 0, hx(rest),
+                emit("exit clean=%d timers=0 out %s%s" % (1 if rc == 0 and not san else 0, hx(rest),
                                                             (" rc=%s %s" % (rc, err[-200:].replace("\n", "|").replace(" ", "_"))) if rc != 0 or san else ""))
                 d = None
             else:
-                print("bad-op")
+                emit("bad-op")
     finally:
         if d is not None:
             try:
@@ -193,6 +215,17 @@ def run_case(lines):
             except OSError:
                 pass
         shutil.rmtree(wd, ignore_errors=True)
+    return recs, late_seen
+
+
+def run_and_print(lines):
+    recs, late = run_case(lines)
+    if late:
+        # a timer that was merely slow on a loaded machine is not a finding: once more, waiting
+        # three seconds longer; output that is still held back then was never going to come
+        recs, late = run_case(lines, extra_wait=3.0)
+    for r in recs:
+        print(r)
     sys.stdout.flush()
 
 
@@ -201,12 +234,12 @@ def main():
     cur = []
     for l in data:
         if l.startswith("case ") and cur:
-            run_case(cur)
+            run_and_print(cur)
             cur = []
         if l != "":
             cur.append(l)
     if cur:
-        run_case(cur)
+        run_and_print(cur)
 
 
 if __name__ == "__main__":
